@@ -16,6 +16,7 @@ type cbatch struct {
 	wires  []ot.Wire // COT: the sender's inputs; ROT: ignored on input (overwritten by Send)
 	reinit bool      // call InitSender/InitReceiver again before this batch
 	ckind  string
+	rbuf   bufSpec // the receiver's result buffer
 }
 
 func wiresHex(ws []ot.Wire) string {
@@ -34,6 +35,8 @@ func wiresHex(ws []ot.Wire) string {
 }
 
 type cbatchRes struct {
+	initL  []ot.Label // what the result slice held before Receive
+	frame  string
 	u      [][]byte
 	ct     []ot.Label // labels sent by the sender during Send (seed first)
 	swires []ot.Wire  // sender's wires after Send
@@ -49,22 +52,20 @@ func mkOT(kind string, base ot.OT, tape *hxlib.Tape, mal, shared bool) ot.OT {
 
 // cotCase: COT ("c") or ROT ("r") on the real code with deterministic tapes.
 func cotCase(o *hxlib.Out, r *hxlib.Rng, idx int, seed uint64, kind string, mal, shared bool, base, transport string,
-	stape, rtape []byte, batches []cbatch) (string, string) {
+	stape, rtape []byte, batches []cbatch, arenaL int) (string, string) {
 
 	specs := make([]string, len(batches))
 	for i, b := range batches {
-		w := "-"
-		if kind == "c" {
-			w = wiresHex(b.wires)
-		}
-		specs[i] = boolsStr(b.flags) + ":" + w
+		// COT: the sender's inputs.  ROT: what the caller's wire slice holds
+		// before Send overwrites it ("-": zero wires)
+		specs[i] = boolsStr(b.flags) + ":" + wiresHex(b.wires) + ":" + b.rbuf.String()
 	}
 	m := 0
 	if mal {
 		m = 1
 	}
-	op := fmt.Sprintf("c06 cot %s %d %s %s %s %s %s", kind, m, base, transport, hxlib.Hex(stape), hxlib.Hex(rtape),
-		strings.Join(specs, ";"))
+	op := fmt.Sprintf("c06 cotb %s %d %s %s %s %s %d %s", kind, m, base, transport, hxlib.Hex(stape), hxlib.Hex(rtape),
+		arenaL, strings.Join(specs, ";"))
 	replay := fmt.Sprintf("hx c06 cot -seed %d -only %d", seed, idx)
 
 	l := newLink(transport)
@@ -100,15 +101,21 @@ func cotCase(o *hxlib.Out, r *hxlib.Rng, idx int, seed uint64, kind string, mal,
 			return fmt.Errorf("InitReceiver: %v", err)
 		}
 		l.r.take()
+		rl := &labelArena{a: make([]ot.Label, arenaL)}
 		for i, b := range batches {
 			if b.reinit {
 				reinitErrR[i] = rcv.InitReceiver(l.r)
 			}
-			out := make([]ot.Label, len(b.flags))
+			out, before := rl.take(b.rbuf, len(b.flags))
+			res[i].initL = append([]ot.Label(nil), out...)
 			if err := rcv.Receive(b.flags, out); err != nil {
 				return fmt.Errorf("batch %d Receive: %v", i, err)
 			}
-			res[i].rcvd = out
+			res[i].rcvd = append([]ot.Label(nil), out...)
+			if ok, at := rl.frameOK(b.rbuf, len(b.flags), before); !ok {
+				res[i].frame = fmt.Sprintf("Receive changed label %d of the receiver's array outside result[%d:%d]", at,
+					b.rbuf.off, b.rbuf.off+len(b.flags))
+			}
 			res[i].u, _ = l.r.take()
 		}
 		return nil
@@ -117,7 +124,7 @@ func cotCase(o *hxlib.Out, r *hxlib.Rng, idx int, seed uint64, kind string, mal,
 	cfg := fmt.Sprintf("kind=%s mal=%v shared=%v base=%s transport=%s", kind, mal, shared, base, transport)
 	if es != nil || er != nil || to {
 		o.Fail("c06-cot-error", map[string]any{"case": idx, "replay": replay, "sender_err": errStr(es),
-			"receiver_err": errStr(er), "timeout": to, "config": cfg, "sizes": sizesOf(batches)})
+			"receiver_err": errStr(er), "timeout": to, "config": cfg, "sizes": sizesOf(batches), "result_buffers": bufsOf(batches)})
 		return op, "error"
 	}
 	var sb strings.Builder
@@ -142,7 +149,20 @@ func cotCase(o *hxlib.Out, r *hxlib.Rng, idx int, seed uint64, kind string, mal,
 				o.Fail("c06-nonshared-reinit-accepted", map[string]any{"case": idx, "replay": replay, "config": cfg})
 			}
 		}
-		oracleDelivers(o, map[string]string{"c": "cot", "r": "rot"}[kind], idx, replay, i, cfg, b.flags, res[i].swires, res[i].rcvd, b.ckind)
+		o.Count("cot_buf_" + b.rbuf.class())
+		if anyNonZeroL(res[i].initL) {
+			o.Count("cot_buf_nonzero_before_call")
+		}
+		if kind == "r" && len(b.wires) > 0 {
+			o.Count("rot_send_into_nonzero_wires")
+		}
+		if res[i].frame != "" {
+			o.Fail("c06-buffer-frame", map[string]any{"case": idx, "replay": replay, "batch": i, "config": cfg,
+				"what": res[i].frame, "rbuf": b.rbuf.String()})
+		}
+		oracleDelivers(o, map[string]string{"c": "cot", "r": "rot"}[kind], idx, replay, i,
+			cfg+" result_buffer="+b.rbuf.String()+fmt.Sprintf(" nonzero_before_call=%v", anyNonZeroL(res[i].initL)),
+			b.flags, res[i].swires, res[i].rcvd, b.ckind)
 		if kind == "c" {
 			// COT must not change the caller's wires
 			for j := range b.wires {
@@ -154,6 +174,14 @@ func cotCase(o *hxlib.Out, r *hxlib.Rng, idx int, seed uint64, kind string, mal,
 		}
 	}
 	return op, sb.String()
+}
+
+func bufsOf(bs []cbatch) []string {
+	var s []string
+	for _, b := range bs {
+		s = append(s, b.rbuf.String())
+	}
+	return s
 }
 
 func sizesOf(bs []cbatch) []int {
@@ -240,10 +268,27 @@ func cotMode(args []string) int {
 			}
 			f, ck := genChoices(r, n)
 			b := cbatch{flags: f, ckind: ck, reinit: j > 0 && r.Intn(3) == 0}
-			if kind == "c" {
+			if kind == "c" || r.Intn(2) == 0 {
+				// ROT.Send overwrites the caller's wires: half of the time they
+				// hold something else before
 				b.wires = genWires(r, n)
 			}
 			batches = append(batches, b)
+		}
+		arenaL := 0
+		for _, b := range batches {
+			if len(b.flags) > arenaL {
+				arenaL = len(b.flags)
+			}
+		}
+		if r.Intn(3) > 0 {
+			arenaL += 1 + r.Intn(9)
+		}
+		for j := range batches {
+			batches[j].rbuf = genBuf(r, len(batches[j].flags), arenaL, true, j == 0)
+			if j == 0 && i < 2*len(sweepSizes) && i%8 < 4 {
+				batches[j].rbuf = bufSpec{fresh: true}
+			}
 		}
 		stape := r.Bytes(16 + 16*nb)
 		nrt := 2 * ot.K * 16
@@ -256,7 +301,7 @@ func cotMode(args []string) int {
 			base = "co"
 		}
 		transport := []string{"otpipe", "p2p"}[r.Intn(2)]
-		op, res := cotCase(o, r, i, cf.Seed, kind, mal, shared, base, transport, stape, rtape, batches)
+		op, res := cotCase(o, r, i, cf.Seed, kind, mal, shared, base, transport, stape, rtape, batches, arenaL)
 		o.Op(op, res)
 		o.Count("cot_cases")
 		o.Count(fmt.Sprintf("cot_kind_%s_mal_%v_shared_%v", kind, mal, shared))
@@ -274,7 +319,8 @@ func cotMode(args []string) int {
 		}
 		if i < 3 {
 			o.Sample(map[string]any{"case": i, "mode": "cot", "kind": kind, "malicious": mal, "shared": shared,
-				"sizes": sizesOf(batches), "base": base, "transport": transport})
+				"sizes": sizesOf(batches), "result_buffers": bufsOf(batches), "arena_labels": arenaL, "base": base,
+				"transport": transport})
 		}
 	}
 	// MITCCRH.Hash directly: k keys x h blocks, several calls on one instance
